@@ -76,6 +76,25 @@ def generate(ctx):
         yield 'cadv', {'b': b, 'x': x, 'w': w, 'wshape': [K - 1, 2], 'axis': 0, 'bv': False}
         yield 'geo', {'b': b, 'T': util.small_rationals(rng, (K, 2, 2), 200, 300, 1).tolist(), 'R': 287.0}
         yield 'long_axis', {'b': b, 'x': x, 'T': util.small_rationals(rng, (K, 1, 2), 200, 300, 1).tolist(), 'R': 287.0}
+    # NEARLY equidistant level sets (thicknesses equal to ~1e-5 .. 1e-9 relative but not equal: tables typed to a few
+    # decimals, float32-accumulated boundaries): shortcuts guarded by allclose/isclose on the spacing show here
+    for K, mode in ([(7, 'dec7'), (5, 'f32'), (4, 'jit')] if ctx.tier == 'quick' else [(7, 'dec7'), (5, 'f32'), (4, 'jit'), (12, 'dec6'), (3, 'dec7'), (9, 'jit')]):
+        if mode.startswith('dec'):
+            b = [round(k / K, int(mode[3:])) for k in range(K + 1)]
+        elif mode == 'f32':
+            b = np.cumsum(np.full(K, np.float32(1.0 / K), dtype=np.float32)).astype(np.float64).tolist(); b = [0.0] + b[:-1] + [1.0]
+        else:
+            b = (np.arange(K + 1) / K + np.concatenate([[0], rng.integers(-8, 9, size=K - 1) * 2.0 ** -22, [0]])).tolist()
+        ctx.count('nearly-equidistant level set')
+        x = util.small_rationals(rng, (K, 2)).tolist(); w = util.small_rationals(rng, (K - 1, 2)).tolist()
+        yield 'derived', {'b': b}
+        yield 'cumint', {'b': b, 'x': x, 'axis': 0}
+        yield 'cumlog', {'b': b, 'x': x, 'axis': 0}
+        yield 'cdiff', {'b': b, 'x': x, 'axis': 0, 'a': 1.25, 'c': -0.5}
+        yield 'cadv', {'b': b, 'x': x, 'w': w, 'wshape': [K - 1, 2], 'axis': 0, 'bv': False}
+        yield 'upwind', {'b': b, 'x': x, 'w': w, 'wshape': [K - 1, 2], 'axis': 0}
+        yield 'geo', {'b': b, 'T': util.small_rationals(rng, (K, 2, 2), 200, 300, 1).tolist(), 'R': 287.0}
+        yield 'long_axis', {'b': b, 'x': x, 'T': util.small_rationals(rng, (K, 1, 2), 200, 300, 1).tolist(), 'R': 287.0}
     # extremely thin layers next to thick ones (dyadic): any absolute epsilon added to a spacing or thickness shows
     thin = [[0.0, 2.0 ** -30, 2.0 ** -29, 0.5, 0.5 + 2.0 ** -25, 1.0], [0.0, 0.25, 0.25 + 2.0 ** -34, 1.0],
             [0.0, 1.0 - 2.0 ** -28, 1.0], [0.0, 2.0 ** -40, 1.0 - 2.0 ** -33, 1.0 - 2.0 ** -34, 1.0]]
